@@ -101,6 +101,64 @@ func TestVerifRace(t *testing.T) {
 		t.Fatal(err)
 	}
 	c0.Close()
+	// a follower of this server in the same process (replication streams, checksums,
+	// reconnects run next to the command pairs) and a webhook endpoint
+	port2 := port + 1
+	if l2, err := net.Listen("tcp", "127.0.0.1:0"); err == nil {
+		port2 = l2.Addr().(*net.TCPAddr).Port
+		l2.Close()
+	}
+	shutdown2 := make(chan bool, 1)
+	done2 := make(chan error, 1)
+	os.MkdirAll(dir+"-f", 0700)
+	go func() {
+		done2 <- Serve(Options{Host: "127.0.0.1", Port: port2, Dir: dir + "-f", AppendOnly: true, Shutdown: shutdown2, UseHTTP: true, QueueFileName: ":memory:"})
+	}()
+	addr2 := fmt.Sprintf("127.0.0.1:%d", port2)
+	for i := 0; i < 200; i++ {
+		if fc, err := net.Dial("tcp", addr2); err == nil {
+			fc.Write(raceCmd("FOLLOW", "127.0.0.1", fmt.Sprint(port)))
+			raceReadReply(bufio.NewReader(fc))
+			fc.Close()
+			break
+		}
+		time.Sleep(20 * time.Millisecond)
+	}
+	hookLn, _ := net.Listen("tcp", "127.0.0.1:0")
+	hookURL := "http://127.0.0.1:1/x"
+	if hookLn != nil {
+		hookURL = "http://" + hookLn.Addr().String() + "/h"
+		go func() {
+			for {
+				hc, err := hookLn.Accept()
+				if err != nil {
+					return
+				}
+				go func() {
+					defer hc.Close()
+					br := bufio.NewReader(hc)
+					for {
+						n := 0
+						for {
+							line, err := br.ReadString('\n')
+							if err != nil {
+								return
+							}
+							if strings.HasPrefix(strings.ToLower(line), "content-length:") {
+								fmt.Sscanf(strings.TrimSpace(line[15:]), "%d", &n)
+							}
+							if line == "\r\n" {
+								break
+							}
+						}
+						io.CopyN(io.Discard, br, int64(n))
+						hc.Write([]byte("HTTP/1.1 200 OK\r\nContent-Length: 0\r\n\r\n"))
+					}
+				}()
+			}
+		}()
+		defer hookLn.Close()
+	}
 	pairs := [][][]string{
 		{{"SET", "k", "a", "POINT", "1", "1"}, {"SET", "k", "a", "POINT", "2", "2"}},
 		{{"SET", "k", "a", "FIELD", "f", "1", "POINT", "1", "1"}, {"GET", "k", "a", "WITHFIELDS"}},
@@ -120,6 +178,23 @@ func TestVerifRace(t *testing.T) {
 		{{"SERVER"}, {"STATS", "k"}},
 		{{"NEARBY", "k", "POINT", "1", "1"}, {"SET", "k", "n", "POINT", "1.5", "1.5"}},
 		{{"SEARCH", "k"}, {"SET", "k", "s", "STRING", "v"}},
+		// server-wide state next to writes
+		{{"SERVER", "EXT"}, {"SET", "k", "x1", "EX", "0.05", "POINT", "1", "1"}},
+		{{"INFO"}, {"AOFSHRINK"}},
+		{{"CLIENT", "LIST"}, {"PING"}},
+		{{"CONFIG", "SET", "keepalive", "300"}, {"CONFIG", "GET", "keepalive"}},
+		{{"CONFIG", "REWRITE"}, {"CONFIG", "SET", "maxmemory", "0"}},
+		{{"SCRIPT", "LOAD", "return 1"}, {"EVAL", "return tile38.call('GET','k','a')", "0"}},
+		{{"SCRIPT", "FLUSH"}, {"EVALNA", "return tile38.call('SET','k','n1','POINT',1,1)", "0"}},
+		{{"PUBLISH", "pch", "m"}, {"SETCHAN", "pch2", "NEARBY", "k", "FENCE", "POINT", "1", "1", "100000"}},
+		{{"SETHOOK", "hk", hookURL, "NEARBY", "k", "FENCE", "POINT", "1", "1", "100000"}, {"SET", "k", "h1", "POINT", "1", "1"}},
+		{{"PDELHOOK", "h*"}, {"HOOKS", "*"}},
+		{{"HEALTHZ"}, {"SET", "k", "z", "POINT", "2", "2"}},
+		{{"OUTPUT", "json"}, {"GET", "k", "a"}},
+		{{"TIMEOUT", "5", "SCAN", "k"}, {"SET", "k", "t", "POINT", "2", "2"}},
+		{{"AOFMD5", "0", "10"}, {"SET", "k", "m5", "POINT", "2", "2"}},
+		{{"GC"}, {"FLUSHDB"}},
+		{{"READONLY", "no"}, {"SET", "k", "ro", "POINT", "2", "2"}},
 	}
 	iters := 300
 	if v, ok := job.Params["iters"].(float64); ok {
@@ -137,6 +212,46 @@ func TestVerifRace(t *testing.T) {
 			lives = append(lives, lc)
 		}
 	}
+	stopBG := make(chan bool)
+	var bg sync.WaitGroup
+	bg.Add(2)
+	go func() { // reads on the follower while it replicates
+		defer bg.Done()
+		for {
+			select {
+			case <-stopBG:
+				return
+			default:
+			}
+			if fc, err := net.Dial("tcp", addr2); err == nil {
+				r := bufio.NewReader(fc)
+				for _, cmd := range [][]string{{"SERVER"}, {"SCAN", "k"}, {"HEALTHZ"}, {"INFO"}} {
+					fc.SetDeadline(time.Now().Add(2 * time.Second))
+					fc.Write(raceCmd(cmd...))
+					raceReadReply(r)
+				}
+				fc.Close()
+			}
+			time.Sleep(5 * time.Millisecond)
+		}
+	}()
+	go func() { // subscribers coming and going
+		defer bg.Done()
+		for {
+			select {
+			case <-stopBG:
+				return
+			default:
+			}
+			if sc, err := net.Dial("tcp", addr); err == nil {
+				sc.Write(raceCmd("SUBSCRIBE", "pch", "ch"))
+				sc.Write(raceCmd("PSUBSCRIBE", "p*"))
+				sc.SetDeadline(time.Now().Add(20 * time.Millisecond))
+				io.Copy(io.Discard, sc)
+				sc.Close()
+			}
+		}
+	}()
 	for pi, pair := range pairs {
 		if pi%job.NShards != job.Shard {
 			continue
@@ -166,8 +281,15 @@ func TestVerifRace(t *testing.T) {
 			break
 		}
 	}
+	close(stopBG)
+	bg.Wait()
 	for _, lc := range lives {
 		lc.Close()
+	}
+	shutdown2 <- true
+	select {
+	case <-done2:
+	case <-time.After(10 * time.Second):
 	}
 	shutdown <- true
 	select {
@@ -178,7 +300,7 @@ func TestVerifRace(t *testing.T) {
 	// reaching this point with no report means none was observed in this run
 	res := map[string]any{"check": "c07race", "shard": job.Shard, "evaluations": execs, "transitions": execs, "states": len(pairs),
 		"traces_validated_against_impl": execs, "exhaustive": false, "caps": []string{"free-running -race pass: schedules are sampled, not enumerated"},
-		"rule": "free-running -race build of the unmodified package: 18 conflicting command pairs x N iterations on real connections, 2 live fences", "wall_s": time.Since(start).Seconds()}
+		"rule": "free-running -race build of the unmodified package: 34 conflicting command pairs x N iterations on real connections, 2 live fences, a follower in the same process being read, subscribers coming and going, a webhook endpoint", "wall_s": time.Since(start).Seconds()}
 	out, _ := json.Marshal(res)
 	os.WriteFile(job.Out, out, 0644)
 	b := make([]byte, 16)
